@@ -124,9 +124,19 @@ def model(tree, consts, V):
 def shard(p):
     acc = Acc()
     rng = rng_for(p["seed"], PID, p["shard"])
-    d = Driver(p["bin"])
+    # every fourth shard evaluates with a logger installed at trace level (RUST_LOG): enabling logging must not change any result.
+    # (The vocabulary - which words mean what, measured scales - comes from a plain driver: a fault that logging switches on must not
+    # also shift the yardstick.)
+    log_env = {"RUST_LOG": "anything=trace"} if p["shard"] % 4 == 3 else None
+    d = Driver(p["bin"], env=log_env)
     try:
-        V = G.Vocab(d)
+        if log_env:
+            acc.context = {"trace_logging": True}
+            acc.count("shards_with_trace_logging_enabled")
+            with Driver(p["bin"]) as d_plain:
+                V = G.Vocab(d_plain)
+        else:
+            V = G.Vocab(d)
         # classify facts by evaluating them once (with descriptions)
         phrases = [" ".join(f["tokens"]) for f in p["facts"]]
         reps = d.call_many([{"op": "query", "q": ph, "describe": True} for ph in phrases], timeout=600)
@@ -260,7 +270,8 @@ def shard(p):
                     acc.violate("c18:answer-differs-from-isolation", "%r gives %s on a database object of its own but %s on one that answered other queries before" % (queries[qi][0], s2[:300], iso[qi][:300]),
                                 {"query": queries[qi][0], "describe": True, "build": p["kind"]})
         # several expressions in one query string: values and descriptions are those of the expressions evaluated alone, in order
-        multi.stage(acc, d, rng.sample([q for q, t in queries[:n_generated] if "{" not in q], min(n_generated, 300)), rng, 300, PID, p["kind"], kmax=3, descs=True)
+        multi.stage(acc, d, rng.sample([q for q, t in queries[:n_generated] if "{" not in q], min(n_generated, 300)) + multi.REFUSED + ["(%s) * 2" % x for x in multi.REFUSED[:6]],
+                    rng, 400, PID, p["kind"], kmax=3, descs=True)
         first = {}
         for pos, ((qi, flag), rep) in enumerate(zip(schedule, reps)):
             text, tree = queries[qi]
@@ -353,7 +364,8 @@ def run(tier, seed):
 def replay(path):
     v = json.load(open(path))
     c = v["case"]
-    with Driver(build.build(c.get("build", "dbg"))["vdriver"]) as d:
+    from core.driver import replay_env
+    with Driver(build.build(c.get("build", "dbg"))["vdriver"], env=replay_env(c)) as d:
         for q0, f0 in c.get("preceded_by", []):
             d.call({"op": "query", "q": q0, "describe": f0})
         rep = d.call({"op": "query", "q": c["query"], "describe": c["describe"]})
